@@ -251,7 +251,8 @@ def c18_ctrl_schema():
             "types": types, "messages": [m]}
 
 
-FP_LEXEMES = ["-INF", "INF", "+INF", "NaN", "-0.0", "0", "1e-3", "-1.5E+10", "3", "-2.5", "1024", "-1", "+1.25", ".5", "5.", "0.1"]
+FP_LEXEMES = ["-INF", "INF", "+INF", "NaN", "-0.0", "0", "1e-3", "-1.5E+10", "3", "-2.5", "1024", "-1", "+1.25", ".5", "5.", "0.1",
+              "010", "007.50", "-0012", "08", "00.125", "16777217", "123456789", "-9007199254740993", "18446744073709551615"]
 FP_ONLY = {"float": ["3.4028234663852886e+38", "-3.4028234663852886e+38", "1.17549435e-38"],
            "double": ["1.7976931348623157e+308", "-1.7976931348623157e+308", "2.2250738585072014e-308",
                       "3.4028234663852886e+38", "1.17549435e-38"]}
